@@ -9,6 +9,8 @@
    in e^, only in r1^ or only in r3^ exhibits a collision of the challenge hash on two explicit different inputs.
    Bit flips of the points and of the challenge field: correspondence + sweep. *)
 From ZK Require Import Laws BaseLemmas ModelLemmas SignProofs Codec Soundness UpdateProofs Separation Binding Extractor Malleability.
+From ZK Require Import Blind Options.
+From Coq Require Import List. Import ListNotations.
 
 Theorem C04_core_proof_verify_degenerate :
   forall (E : env) (LW : Laws E) pk p g header ph dm di api,
@@ -220,3 +222,30 @@ Check (C04_proof_response_edit_reduces :
     Collision (fun x => f_of_okm (SO E) (expand E x (api ++ c_h2s (cs E)) 48))
               (challenge_octets E ir di dm ph) (challenge_octets E ir' di dm ph)).
 Print Assumptions C04_proof_response_edit_reduces.
+
+(* the verifier never accepts when the number of disclosed messages differs from the number of distinct disclosed indexes (any proof, any key) *)
+Theorem C04_proof_verify_lists_disagree :
+  forall (E : env) p pk dmsgs idx header ph,
+  length (option_default [] dmsgs) <> length (sort_dedup (option_default [] idx)) ->
+  proof_verify E p pk dmsgs idx header ph <> Ok tt.
+Proof. exact proof_verify_lists_disagree. Qed.
+Check (C04_proof_verify_lists_disagree :
+  forall (E : env) p pk dmsgs idx header ph,
+  length (option_default [] dmsgs) <> length (sort_dedup (option_default [] idx)) ->
+  proof_verify E p pk dmsgs idx header ph <> Ok tt).
+Print Assumptions C04_proof_verify_lists_disagree.
+
+(* ... in particular a claimed message without a position, or a position without a message, is refused *)
+Theorem C04_proof_verify_messages_without_indexes :
+  forall (E : env) p pk m ms header ph, proof_verify E p pk (Some (m :: ms)) None header ph <> Ok tt.
+Proof. exact proof_verify_messages_without_indexes. Qed.
+Check (C04_proof_verify_messages_without_indexes :
+  forall (E : env) p pk m ms header ph, proof_verify E p pk (Some (m :: ms)) None header ph <> Ok tt).
+Print Assumptions C04_proof_verify_messages_without_indexes.
+
+Theorem C04_proof_verify_indexes_without_messages :
+  forall (E : env) p pk i idx header ph, proof_verify E p pk None (Some (i :: idx)) header ph <> Ok tt.
+Proof. exact proof_verify_indexes_without_messages. Qed.
+Check (C04_proof_verify_indexes_without_messages :
+  forall (E : env) p pk i idx header ph, proof_verify E p pk None (Some (i :: idx)) header ph <> Ok tt).
+Print Assumptions C04_proof_verify_indexes_without_messages.
